@@ -19,7 +19,8 @@ EXPLANATION = (
 )
 # obligations added during the build phase (seeding rounds, twins, mutation analysis)
 ADDED_IN_BUILD = " Also: the segments are the groups of ChangeDetector.sparse_to_dense's labels, whose C05.e DENSE-FILL obligations are re-run here (a dropped last changepoint merges two segments). every-segment-judged: no returning path of _predict skips the loop over the segments. The reported interval has the exact form (first position, last position + 1) - a min / max / clip on a bound is a violation. Vectorised spellings are UNDECIDED except for two decided defects: intervals listed selection by selection (position-order) and statistics stored in an array of the data's dtype (statistic-dtype). rejects-equal-bounds: a construction-time raise whose path facts are consistent with stat_lower == stat_upper is a violation."
-EXPLANATION = EXPLANATION + ADDED_IN_BUILD
+ADDED_IN_ROUND_9 = " Round 9: np.empty_like / zeros_like take the dtype of their prototype - unknown when the prototype is (a view of) the caller's data - so statistic-dtype also decides buffers allocated that way; an assertion is decided by entailment from the facts of the path and from what check_data establishes before it opens a raising path."
+EXPLANATION = EXPLANATION + ADDED_IN_BUILD + ADDED_IN_ROUND_9
 
 ASSUMPTIONS = [
     "Python's ast module and evaluation-order/argument-binding semantics as implemented in skverif/symex.py",
